@@ -303,6 +303,29 @@ pub fn gen_case(rng: &mut Rng, req: usize, npoly: usize, want_bounds: bool, want
     Ok(Case { trap, req, s, ck, vk, polys, kinds, comms, rands, commit_draws })
 }
 
+/// Like `gen_case`, with the hiding setting of every polynomial prescribed (`pattern[i]` = polynomial
+/// `i` is hiding): mixed hiding inside one opening.
+pub fn gen_case_pattern(rng: &mut Rng, req: usize, pattern: &[bool], want_bounds: bool) -> Result<Case, String> {
+    let sd = (req + 1).next_power_of_two();
+    let n = if coin(rng) { sd } else { 2 * sd };
+    let trap = Trap::random(rng, n);
+    let pp = trap.params();
+    let (ck, vk) = PC::trim(&pp, req, 0, None).map_err(|e| format!("trim: {:?}", e))?;
+    let s = ck.supported_degree();
+    let mut polys = vec![];
+    let mut kinds = vec![];
+    for (i, hid) in pattern.iter().enumerate() {
+        let (p, kind) = crate::kzg::gen_poly(rng, s);
+        let deg = p.degree();
+        let bound = if want_bounds && coin(rng) { Some(range(rng, deg, s)) } else { None };
+        polys.push(LabeledPolynomial::new(format!("p{}", i), p, bound, if *hid { Some(range(rng, 0, 2)) } else { None }));
+        kinds.push(kind);
+    }
+    let commit_draws = replay_fr(rng, 2 * pattern.len());
+    let (comms, rands) = PC::commit(&ck, &polys, Some(rng)).map_err(|e| format!("commit: {:?}", e))?;
+    Ok(Case { trap, req, s, ck, vk, polys, kinds, comms, rands, commit_draws })
+}
+
 /// queue `ipa.trim` and `ipa.commit` for the case
 pub fn ask_trim_commit(ctx: &mut Ctx, id: &str, c: &Case) {
     ctx.ses.ask(
@@ -606,6 +629,8 @@ pub fn gen_queries(rng: &mut Rng, c: &Case, nlabels: usize) -> (QuerySet<Fr>, Ev
 pub struct BatchOpened {
     pub proofs: Vec<Proof<G1Affine>>,
     pub ps: Vec<ProofS>,
+    /// the sponge challenges of the whole batch (prover = verifier, lock-step)
+    pub xis: Vec<Fr>,
 }
 
 /// honest `batch_open` (trait default); queues `ipa.batch_open`; the scalar proofs are re-derived
@@ -659,7 +684,7 @@ pub fn batch_open(ctx: &mut Ctx, rng: &mut Rng, id: &str, c: &Case, cs: &[CommS]
             ("used_draws".into(), Expect::Nat(kd)),
         ]),
     );
-    Ok(BatchOpened { proofs, ps })
+    Ok(BatchOpened { proofs, ps, xis })
 }
 
 /// run `batch_check` on a statement in scalar form and queue `ipa.batch_check`
@@ -741,4 +766,55 @@ pub fn individual_checks(vk: &VerifierKey<G1Affine>, cs: &[CommS], qs: &QuerySet
         }
     }
     all
+}
+
+/// `batch_open` done by hand on one sponge, where the point label number `short_pos` (in sorted
+/// order) is opened with the *smaller* key `ck_small` (a smaller trim of the same parameters) and
+/// the others with the case's key.  Returns the proofs in scalar form (checked against the
+/// library's group elements).
+pub fn batch_open_cross_trim(
+    rng: &mut Rng,
+    c: &Case,
+    cs: &[CommS],
+    qs: &QuerySet<Fr>,
+    ck_small: &CommitterKey<G1Affine>,
+    short_pos: usize,
+) -> Result<Vec<ProofS>, String> {
+    let groups = crate::generic::group(qs);
+    let draws = replay_fr(rng, groups.len() * (c.s + 6) + 4);
+    let mut sp = LogSponge::fresh();
+    ro_clear();
+    let mut proofs = vec![];
+    for (gi, (_, pt, labels)) in groups.iter().enumerate() {
+        let idx: Vec<usize> = labels.iter().filter_map(|l| c.polys.iter().position(|p| p.label() == l)).collect();
+        let polys: Vec<&LP> = idx.iter().map(|&i| &c.polys[i]).collect();
+        let comms: Vec<&LC> = idx.iter().map(|&i| &c.comms[i]).collect();
+        let rands: Vec<&Rand> = idx.iter().map(|&i| &c.rands[i]).collect();
+        let ck = if gi == short_pos { ck_small } else { &c.ck };
+        match guarded(|| PC::open(ck, polys.iter().cloned(), comms.iter().cloned(), pt, &mut sp, rands.iter().cloned(), Some(rng))) {
+            Ok(Ok(p)) => proofs.push(p),
+            Ok(Err(e)) => return Err(err_kind(&e)),
+            Err(a) => return Err(a),
+        }
+    }
+    let (ros, _) = ro_take();
+    let xis = sp.challenges();
+    let (mut kx, mut kr, mut kd) = (0usize, 0usize, 0usize);
+    let mut ps = vec![];
+    for (gi, (_, pt, labels)) in groups.iter().enumerate() {
+        let idx: Vec<usize> = labels.iter().filter_map(|l| c.polys.iter().position(|p| p.label() == l)).collect();
+        let polys: Vec<&LP> = idx.iter().map(|&i| &c.polys[i]).collect();
+        let rands: Vec<&Rand> = idx.iter().map(|&i| &c.rands[i]).collect();
+        let csub: Vec<&CommS> = idx.iter().map(|&i| &cs[i]).collect();
+        let s = if gi == short_pos { ck_small.supported_degree() } else { c.s };
+        let (p, ux, ur, ud) = scalar_open(&c.trap, s, &polys, &csub, &rands, *pt, &xis[kx..], &ros[kr..], &draws[kd..]).ok_or("scalar prover ran out of oracle outputs".to_string())?;
+        kx += ux;
+        kr += ur;
+        kd += ud;
+        ps.push(p);
+    }
+    if ps.len() != proofs.len() || !ps.iter().zip(&proofs).all(|(a, b)| a.matches(b)) {
+        return Err("proof-not-key-defined".into());
+    }
+    Ok(ps)
 }
